@@ -118,7 +118,8 @@ def parseFlags (j : Json) : Except String Flags := do
   pure { period := ← dInt j "period" 0, n := ← dInt j "n" 0, rate := dBool j "rate", coef := dBool j "coef"
          slo := ← dInt j "slo" (-1), unique := dBool j "unique", repl := ← dInt j "repl" 1
          minDeadline := ← dInt j "min_deadline" 0
-         maxDeadline := ← dInt j "max_deadline" 9223372036854775807 }
+         maxDeadline := ← dInt j "max_deadline" 9223372036854775807
+         loopTimeout := ← dInt j "loop_timeout" 9223372036854775807 }
 
 def parsePool (j : Json) : Except String PoolD := do
   let ws ← match ← oArr j "workers" with
@@ -244,11 +245,10 @@ def handleE (j : Json) : Except String Json := do
   | "workload" =>
     let d ← parseWorkloadD (← fld j "desc")
     let f ← parseFlags (← fld j "flags")
-    let h ← oInt j "horizon"
     let tape ← intList (← fldArr j "tape")
     let draws ← mapM' (fun v => parseDraws (some v)) (← fldArr j "draws")
     let hist ← parseHistory ((← oArr j "history").getD [])
-    match loadWorkload d f h tape draws with
+    match loadWorkload d f tape draws with
     | .error e => pure (errJ e)
     | .ok ld =>
       let (ld1, rel) := runHistory f ld hist []
